@@ -47,6 +47,15 @@ theorem C17_route_table :
 
 theorem C17_name_pattern : Generated.ociNamePattern = [94, 91, 97, 45, 122, 48, 45, 57, 93, 43, 40, 40, 92, 46, 124, 95, 124, 95, 95, 124, 45, 43, 41, 91, 97, 45, 122, 48, 45, 57, 93, 43, 41, 42, 40, 92, 47, 91, 97, 45, 122, 48, 45, 57, 93, 43, 40, 40, 92, 46, 124, 95, 124, 95, 95, 124, 45, 43, 41, 91, 97, 45, 122, 48, 45, 57, 93, 43, 41, 42, 41, 42, 36] ∧ Generated.ociConstraintName = [110, 97, 109, 101] := by decide
 
+/-- **The example searches the request path as it was received** (generated obligation). The theorems below are about
+`Router::search` on the example's table; the example reaches it through `AppRouter::handle`, and C17 is about *URLs*. The
+translator follows the argument of the example's one `.search(…)` call back through `let` bindings, helper-function parameters
+and receivers, dropping what is the identity on the text (`&`, `to_owned`, `to_string`, `clone`, `as_str`, `into`,
+`String::from`): what is left must be `REQ.uri().path()` — no decoding, normalising, trimming or case folding between the
+request and the router (a percent-decoding step there routes `/v2/a%2Fb/tags/list`, whose name violates the grammar). -/
+theorem C17_searches_request_path :
+    Generated.ociSearchArg = [82, 69, 81, 46, 117, 114, 105, 40, 41, 46, 112, 97, 116, 104, 40, 41] := by decide
+
 /-- every template of the example's table is accepted by the grammar -/
 theorem C17_templates_accepted : Generated.ociRoutes.all (fun r => Accepts r.2.1) = true := by decide
 
